@@ -41,7 +41,9 @@
        integer counts, and row sums (x k, for the scale relation) exactly representable in the
        storage dtype: < 2^24 for float32, < 2^53 for float64
 
-   (c07_float_sum_exact_below_2_24: under that bound the left-to-right binary32 sum IS rsum).
+   (c07_float_sum_exact_every_bracketing: under that bound the binary32 sum IS rsum for EVERY tree of
+    additions over the entries in any order - numpy's pairwise blocks for rows of >= 8 entries included;
+    c07_float_sum_exact_below_2_24 is its left-to-right instance).
    Outside it the real code differs from the model -- measured on the real code (audit 3,
    reproduced by harness/props/c07.py, stream `outside-domain`):
      - float32 integer counts, row sum > 2^24, times an integer factor: log2CPM NOT bitwise equal
@@ -650,6 +652,35 @@ Theorem c07_float_sum_exact_below_2_24 :
   forall row, Forall (fun x => 0 <= x) row -> rsum row <= two24 -> fsum_lr rnd24 row = rsum row.
 Proof. exact fsum_lr_exact. Qed.
 Print Assumptions c07_float_sum_exact_below_2_24.
+
+(* THE SAME FOR EVERY BRACKETING (audit 4, A6).  np.sum(axis=1) is the left-to-right fold only for rows of fewer
+   than 8 entries; for longer rows numpy adds in pairwise blocks (8 interleaved accumulators, a fixed
+   combination, the remainder one by one; halves above 128 entries).  Any such scheme is a binary tree of rounded
+   additions whose leaves are the entries of the row in some order (sum_tree, leaves, fsum_tree:
+   Proofs/NormalizeRefP.v).  For every tree: every sub-sum of non-negative counts is at most the row sum, hence
+   at most 2^24, hence representable, hence no addition rounds. *)
+Theorem c07_float_sum_exact_every_bracketing :
+  forall row t, Forall (fun x => 0 <= x) row -> rsum row <= two24 -> Permutation (leaves t) row ->
+  fsum_tree rnd24 t = rsum row.
+Proof. exact fsum_any_bracketing_exact. Qed.
+Print Assumptions c07_float_sum_exact_every_bracketing.
+(* the left-to-right fold is the left comb; numpy's scheme for a row of 10 entries is another tree over the
+   same leaves; outside the domain the two give different numbers, both wrong (the audit's row: numpy
+   16777220, left-to-right 16777216, exact 16777222); inside it (same shape, sum 2^24 - 3 + 9 <= 2^24 fails, so
+   a smaller head) both are exact *)
+Example c07_bracketings :
+  (forall rnd row, fsum_tree rnd (comb_tree row) = fsum_lr rnd row /\ leaves (comb_tree row) = row) /\
+  (let row := [16777213; 1; 1; 1; 1; 1; 1; 1; 1; 1] in
+   leaves (np_pairwise_10 row) = row /\
+   fsum_tree rnd24 (np_pairwise_10 row) = 16777220 /\ fsum_lr rnd24 row = 16777216 /\ rsum row = 16777222) /\
+  (let row := [16777207; 1; 1; 1; 1; 1; 1; 1; 1; 1] in
+   Forall (fun x => 0 <= x) row /\ rsum row <= two24 /\ Permutation (leaves (np_pairwise_10 row)) row /\
+   fsum_tree rnd24 (np_pairwise_10 row) = 16777216 /\ fsum_lr rnd24 row = 16777216).
+Proof.
+  split; [exact comb_tree_is_fsum_lr|]. split; [exact bracketings_differ_above_2_24|].
+  cbv zeta. split; [repeat constructor; discriminate|]. split; [vm_compute; discriminate|].
+  split; [vm_compute; apply Permutation_refl|]. split; vm_compute; reflexivity.
+Qed.
 
 (* a concrete non-trivial row meets the DOMAIN hypothesis (sum 12,000,007 < 2^24) and its reversal
    is summed to the same value *)
